@@ -586,6 +586,9 @@ class Interp:
         if (type(base) not in (dict, list, tuple, set, str, int, float, bool, type(None)) and
                 not isinstance(base, (ClassVal, ExternalObj, ExcVal, ModuleInfo, FuncInfo))) and hasattr(base, e.attr):
             return getattr(base, e.attr)  # object handed in by the check through `externals`
+        if getattr(base, "_e6_complete", False) and not isinstance(base, (ClassVal, ExternalObj, ExcVal, ModuleInfo, FuncInfo)):
+            # a model object whose attribute set the check declares complete: a missing attribute is the program's AttributeError
+            raise Raised(ExcVal("AttributeError", None, {"message": f"{getattr(base, '_cls', type(base).__name__)!r} object has no attribute {e.attr!r}"}, getattr(e, "lineno", 0)))
         if isinstance(base, ExcVal) and e.attr == "args":
             return (base.kwargs.get("message", ""), base.code)
         if isinstance(base, ModuleInfo):
